@@ -98,6 +98,8 @@ class Prop(object):
         for op in H.OPS:
             u.append(('bfs', {'root': 'ed25519a', 'first': op, 'depth': d if tier == 'quick' else d + 1}))
             u.append(('bfs', {'root': 'ecdsa_p256a', 'first': op, 'depth': d}))
+        for root, hist in H.DEEP_HISTORIES:
+            u.append(('bfs', {'root': root, 'hist': hist}))
         return u
 
     def run_case(self, check, case):
